@@ -123,6 +123,25 @@ CLAIMS = {
              "decide convergence over delivery schedules.",
         technique="MIR value provenance (post-state vs command operand), unused-result detection, branch-condition root analysis, comparison-shape scan",
         ref="DESIGN.md §3 C06"),
+    "C18": dict(
+        text="Decides structural clauses of C18: R18.1 per-bucket digest lists filled from a HashMap iteration are sorted (by key and "
+             "value hash) before the sequential fold; R18.5 key_hash and value_hash of each digest are fed to one sequential hasher, "
+             "never combined with xor/add/or; R18.2 digest coverage of ReplicatedValue fields (known finding: only stamp + LWW payload); "
+             "R18.3 a sync applies A->B and B->A through apply_remote_deltas after both selections; R18.4 digest construction and "
+             "selection use KeyDigest::bucket with the configured depth; R18.6 selection filters on bucket membership only. Does not "
+             "decide termination under the per-round limit.",
+        technique="hash-order-leak rule (unordered iteration -> order-sensitive sink needs a sort), operator-shape scan, field-coverage set comparison, provenance of sync endpoints",
+        ref="DESIGN.md §3 C18"),
+    "C19": dict(
+        text="Decides the determinism/canonical-form clauses of C19: R19.1 ring hashes use only DefaultHasher::new + Hash::hash on "
+             "str/integers + finish; R19.2 every growth of HashRing.ring is followed by a sort on all paths, positions come from "
+             "hash_virtual_node; R19.3 get_replicas_with_rf touches physical_nodes only via len/contains and returns only the walk "
+             "vector built from ring entries; R19.4 n = min(rf, len), distinctness via the seen-set, loop bound; R19.5 route_selective "
+             "= get_gossip_targets(key, my_replica) with a per-target address skip that continues with the next target; "
+             "get_gossip_targets filters only != sender; queue_deltas emits one message per routing entry. Does not decide minimal "
+             "disruption.",
+        technique="callee allow-list over resolved MIR calls, must-follow pairing (grow => sort), who-may-use field scan, loop-structure path analysis",
+        ref="DESIGN.md §3 C19"),
 }
 
 PENDING_REASON = "check not built yet (build in progress; DESIGN.md §3 lists the planned structural clauses)"
